@@ -313,8 +313,13 @@ def run(pid, tier, replay=None):
         if not rh.violated:
             return machinery_failure(pid, "vacuity: the hand-over-before-add ordering does not violate adoption in the model")
         n = 40 if quick else 500
+        # every third run uses a 3-block retarget period, so that candidates are assembled on retarget boundaries (on either side of forks)
+        cfg_b = sk.Cfg(**dict(MODEL_CFG, period=3))
+        traces_b, labels_b = [], []
         for i in range(n):
-            w3 = sk.World(cfg, keys, tag=b"m%d" % i)
+            cfg_i = cfg_b if i % 3 == 2 else cfg
+            sk.apply_cfg(cfg_i)
+            w3 = sk.World(cfg_i, keys, tag=b"m%d" % i)
             g3 = w3.make_genesis(ts=5000)
             tid += 1
             run_ = node_drv.NodeRun(w3, g3, peers=PEERS, tid=tid, clock0=5000)
@@ -379,11 +384,15 @@ def run(pid, tier, replay=None):
                     if not found:
                         lab.append(["not_found", off])
                 if run_.events:
-                    traces.append(run_.trace())
-                    labels.append(lab)
-                chk.case(json.dumps(lab), nontrivial=any(x[0] == "found" for x in lab))
+                    (traces_b if cfg_i is cfg_b else traces).append(run_.trace())
+                    (labels_b if cfg_i is cfg_b else labels).append(lab)
+                chk.case(json.dumps([cfg_i.period, lab]), nontrivial=any(x[0] == "found" for x in lab))
             finally:
                 run_.close()
+        sk.apply_cfg(cfg)
+        consts_b = dict(consts, Period=cfg_b.period)
+        for k in range(0, len(traces_b), 120):
+            judge(chk, traces_b[k:k + 120], labels_b[k:k + 120], consts_b)
         chk.sample({"source": "real MinerWatcher driven through its handlers", "steps": labels[0]})
         chk.extra["rule"] = ("behaviour = chain state (forks possible) x pool content (0-3 transactions, fees 0/1) x clock offset relative to the head's timestamp "
                              "{-31..+50 s} x optional delivery between request and result; a real MinerWatcher handles request and scrypt result; "
